@@ -20,6 +20,8 @@ import (
 	"os"
 	"path/filepath"
 	"reflect"
+	"runtime"
+	"strings"
 	"sync"
 	"time"
 	"unsafe"
@@ -630,6 +632,39 @@ func init() {
 			}
 
 			return map[string]interface{}{"writes": writes, "seq_end": pc.seqNum.seq}, nil
+		case "up4_reconnect":
+			// the real UP4 plug-in against the in-process P4Runtime server: the P4Runtime channel is lost and
+			// re-established several times. The digest listener (with its rate-limit memory) must stay ONE: every extra
+			// listener starts with empty per-session state and notifies again inside a session's interval.
+			srv, err := vp4Start(vp4Opts{})
+			if err != nil {
+				return nil, err
+			}
+			up4, _, err := vp4NewUP4(srv, vp4UP4Opts{})
+			if err != nil {
+				return map[string]interface{}{"harness_skip": err.Error()}, nil
+			}
+			count := func() int {
+				buf := make([]byte, 1<<22)
+				n := runtime.Stack(buf, true)
+				return strings.Count(string(buf[:n]), "(*UP4).listenToDDNs(")
+			}
+			counts := []int{count()}
+			errs := []string{}
+			for k := 0; k < 3; k++ {
+				up4.tryConnectMu.Lock()
+				c := up4.p4client
+				up4.tryConnectMu.Unlock()
+				if c != nil && c.conn != nil {
+					_ = c.conn.Close()
+				}
+				if err := up4.tryConnect(); err != nil {
+					errs = append(errs, err.Error())
+				}
+				time.Sleep(50 * time.Millisecond)
+				counts = append(counts, count())
+			}
+			return map[string]interface{}{"listeners": counts, "errs": errs}, nil
 		case "seqstress":
 			// several goroutines of one association draw sequence numbers at once (the report path of PFCPNode.Serve,
 			// the heartbeat monitor, an agent-initiated association): every number handed out must be fresh
